@@ -190,7 +190,7 @@ theorem fdtDispatch_growth (I : ObjIface σ) (s s' : State σ) (id : Nat) (f : F
   · simp only [Except.ok.injEq, Prod.mk.injEq] at h
     obtain ⟨rfl, _, _⟩ := h; exact ⟨Nat.le_refl _, Nat.le_refl _⟩
   · simp only [Except.ok.injEq, Prod.mk.injEq] at h
-    obtain ⟨rfl, _, _⟩ := h; exact ⟨Nat.le_refl _, Nat.le_refl _⟩
+    obtain ⟨rfl, _, _⟩ := h; exact ⟨Nat.le_refl _, aerase_length_le _ _⟩
   · split at h
     · cases h
     · split at h
@@ -198,22 +198,22 @@ theorem fdtDispatch_growth (I : ObjIface σ) (s s' : State σ) (id : Nat) (f : F
       · split at h
         · cases h
         · simp only [Except.ok.injEq, Prod.mk.injEq] at h
-          obtain ⟨rfl, _, _⟩ := h; exact ⟨Nat.le_refl _, Nat.le_refl _⟩
+          obtain ⟨rfl, _, _⟩ := h; exact ⟨Nat.le_refl _, aerase_length_le _ _⟩
   · exact fdtCompleted_growth I s s' id r evs h
 
-theorem fdtEntry_growth (I : ObjIface σ) (s : State σ) (id : Nat) :
-    (fdtEntry I s id).1.fdtReceivers.length ≤ s.fdtReceivers.length + 1 ∧
-    alookup id (fdtEntry I s id).1.fdtReceivers = some (fdtEntry I s id).2 := by
+theorem fdtEntry_growth (I : ObjIface σ) (s : State σ) (id : Nat) (p : Pkt) :
+    (fdtEntry I s id p).1.fdtReceivers.length ≤ s.fdtReceivers.length + 1 ∧
+    ∃ g, alookup id (fdtEntry I s id p).1.fdtReceivers = some g := by
   unfold fdtEntry
   split
   · rename_i f hf
-    exact ⟨Nat.le_succ _, hf⟩
-  · exact ⟨ainsert_length_le _ _ _, alookup_ainsert_self _ _ _⟩
+    exact ⟨Nat.le_succ _, f, hf⟩
+  · exact ⟨ainsert_length_le _ _ _, _, alookup_ainsert_self _ _ _⟩
 
-theorem pushFdtObj_growth (I : ObjIface σ) (s s' : State σ) (p : Pkt) (now : Int) (ans : FdtAns)
-    (r : Res) (evs : List Ev) (h : pushFdtObj I s p now ans = .ok (s', r, evs)) :
+theorem pushFdtObjP_growth (I : ObjIface σ) (s s' : State σ) (p : Pkt) (now : Int) (ans : FdtAns)
+    (r : Res) (evs : List Ev) (h : pushFdtObj' I s p now ans = .ok (s', r, evs)) :
     nObj s' ≤ nObj s ∧ s'.fdtReceivers.length ≤ s.fdtReceivers.length + 1 := by
-  unfold pushFdtObj at h
+  unfold pushFdtObj' at h
   split at h
   · split at h
     · simp only [Except.ok.injEq, Prod.mk.injEq] at h
@@ -222,8 +222,9 @@ theorem pushFdtObj_growth (I : ObjIface σ) (s s' : State σ) (p : Pkt) (now : I
       · simp only [Except.ok.injEq, Prod.mk.injEq] at h
         obtain ⟨rfl, _, _⟩ := h; exact ⟨Nat.le_refl _, Nat.le_succ _⟩
   · rename_i id _
-    have he := fdtEntry_growth I s id
-    have heo : nObj (fdtEntry I s id).1 = nObj s := by unfold nObj; rw [fdtEntry_objects]
+    have he := fdtEntry_growth I s id p
+    obtain ⟨he1, g, he2⟩ := he
+    have heo : nObj (fdtEntry I s id p).1 = nObj s := by unfold nObj; rw [fdtEntry_objects]
     split at h
     · simp only [Except.ok.injEq, Prod.mk.injEq] at h
       obtain ⟨rfl, _, _⟩ := h; exact ⟨Nat.le_refl _, Nat.le_succ _⟩
@@ -231,14 +232,33 @@ theorem pushFdtObj_growth (I : ObjIface σ) (s s' : State σ) (p : Pkt) (now : I
       split at h
       · simp only [Except.ok.injEq, Prod.mk.injEq] at h
         obtain ⟨rfl, _, _⟩ := h
-        exact ⟨by rw [heo]; exact Nat.le_refl _, he.1⟩
+        exact ⟨by rw [heo]; exact Nat.le_refl _, he1⟩
       · split at h
         · cases h
         · rename_i f' _
           have := fdtDispatch_growth I _ s' id f' now r evs h
           simp only [] at this
-          rw [ainsert_length_of_some _ _ _ _ he.2] at this
-          exact ⟨by unfold nObj at this heo ⊢; simp only [] at this; omega, Nat.le_trans this.2 he.1⟩
+          rw [ainsert_length_of_some _ _ _ _ he2] at this
+          exact ⟨by unfold nObj at this heo ⊢; simp only [] at this; omega, Nat.le_trans this.2 he1⟩
+
+theorem dropConflict_length (s : State σ) (p : Pkt) :
+    (dropConflict s p).fdtReceivers.length ≤ s.fdtReceivers.length := by
+  unfold dropConflict
+  split
+  · exact Nat.le_refl _
+  · split
+    · exact Nat.le_refl _
+    · split
+      · exact aerase_length_le _ _
+      · exact Nat.le_refl _
+
+theorem pushFdtObj_growth (I : ObjIface σ) (s s' : State σ) (p : Pkt) (now : Int) (ans : FdtAns)
+    (r : Res) (evs : List Ev) (h : pushFdtObj I s p now ans = .ok (s', r, evs)) :
+    nObj s' ≤ nObj s ∧ s'.fdtReceivers.length ≤ s.fdtReceivers.length + 1 := by
+  have := pushFdtObjP_growth I (dropConflict s p) s' p now ans r evs h
+  have hl := dropConflict_length s p
+  have ho : nObj (dropConflict s p) = nObj s := by unfold nObj; rw [(dropConflict_frame s p).1]
+  exact ⟨by rw [← ho]; exact this.1, by omega⟩
 
 theorem updateExpiredAll_length (now : Int) :
     ∀ (l l' : List (Nat × FdtRecv σ)), updateExpiredAll now l = .ok l' → l'.length = l.length := by
